@@ -24,10 +24,12 @@ HARNESS = {
     '/repo/internal/db/zz_merge_harness_test.go': f'{V}/harness/db/zz_merge_harness_test.go',
     '/repo/internal/db/zz_c03_timetravel_test.go': f'{V}/harness/db/zz_c03_timetravel_test.go',
     '/repo/internal/db/zz_c07_index_test.go': f'{V}/harness/db/zz_c07_index_test.go',
+    '/repo/internal/db/zz_c07_counter_index_test.go': f'{V}/harness/db/zz_c07_counter_index_test.go',
     '/repo/internal/db/zz_c09_relation_test.go': f'{V}/harness/db/zz_c09_relation_test.go',
     '/repo/internal/db/zz_c14_restart_test.go': f'{V}/harness/db/zz_c14_restart_test.go',
     '/repo/internal/db/zz_c13_partition_test.go': f'{V}/harness/db/zz_c13_partition_test.go',
     '/repo/internal/db/zz_c08_filter_laws_test.go': f'{V}/harness/db/zz_c08_filter_laws_test.go',
+    '/repo/internal/db/zz_c08_aggregate_laws_test.go': f'{V}/harness/db/zz_c08_aggregate_laws_test.go',
     '/repo/internal/db/zz_c19_active_test.go': f'{V}/harness/db/zz_c19_active_test.go',
     '/repo/internal/db/zz_c11_update_test.go': f'{V}/harness/db/zz_c11_update_test.go',
 }
@@ -153,12 +155,18 @@ if prop == 'C03':
 if prop == 'C07':
     summary['function'] = 'planner index selection + fetcher.indexFetcher iterators/matchers + index maintenance, through DB.ExecRequest and the collection API (go test -overlay on two real databases, one with and one without the secondary indexes)'
     env = {'VERIF_BOUND_N': '30', 'VERIF_BOUND_L': '6', 'VERIF_SEED': str(seed)}
-    bound = 'three logical documents (name in {a,b}, age, unique email in {x@x,y@y,null}); directed family: create d0(a,x@x); create d1(any); one of {update d0/d1 (any values), delete d0/d1, delete-by-filter name=a}; create d2(name a, any email) - 270 histories - plus 30 seeded random histories of length 6 over that alphabet; after every step 18 queries (eq/ne/in/like/range/null/_or filters on the indexed fields, ASC/DESC order) must return the same documents (same key sequence for ordered ones) with and without the indexes, and the unique index must reject exactly the writes that duplicate a live non-null email; plus: a replica with indexes merges create+delete of an unseen document'
+    bound = 'three logical documents (name in {a,b}, age, unique email in {x@x,y@y,null}); directed family: create d0(a,x@x); create d1(any); one of {update d0/d1 (any values), delete d0/d1, delete-by-filter name=a}; create d2(name a, any email) - 270 histories - plus 30 seeded random histories of length 6 over that alphabet; after every step 18 queries (eq/ne/in/like/range/null/_or filters on the indexed fields, ASC/DESC order) must return the same documents (same key sequence for ordered ones) with and without the indexes, and the unique index must reject exactly the writes that duplicate a live non-null email; plus: a replica with indexes merges create+delete of an unseen document; plus: every history of length <= 2 of the merge harness on two replicas whose collection has indexes on name and age, index-served filters compared with the listing after quiescence'
     if tier == 'thorough':
         env = {'VERIF_BOUND_N': '400', 'VERIF_BOUND_L': '8', 'VERIF_SEED': str(seed), 'VERIF_BOUND_DIRECTED': 'full'}
         bound = bound.replace('270 histories', '1620 histories (every d0)').replace('30 seeded random histories of length 6', '400 seeded random histories of length 8')
     p, res = gotest('^TestGovcC07Index$', env, 2400)
     p2, _ = gotest('^TestGovcC07MergeCreatedAndDeleted$', {}, 300)
+    # merges into a replica with indexes keep the indexes in step (merge harness with an indexed schema)
+    p3, res3 = gotest('^TestGovcBoundedMerge$', {'VERIF_BOUND_K': '2', 'VERIF_BOUND_L': '2' if tier != 'thorough' else '3', 'VERIF_MERGE_INDEXED': '1', 'VERIF_BOUND_FAMILIES': '0' if tier != 'thorough' else '1'}, 1500)
+    # probes of listed known findings
+    for kf in [k for k in json.load(open(f'{V}/known_findings.json')) if k['property'] == prop and k.get('kind') == 'bounded-probe' and k.get('status') != 'fixed']:
+        pk, _ = gotest('^' + kf['test'] + '$', {}, 300)
+        lines.append(f"KNOWN-FINDING: property={prop} {kf['what']} [{kf['id']}; {'reproduced' if pk.returncode != 0 else 'not reproduced'} in this run]")
     if res is None:
         rp = f'{V}/replays/{prop}/bounded-harness.json'
         os.makedirs(os.path.dirname(rp), exist_ok=True)
@@ -166,6 +174,13 @@ if prop == 'C07':
         print(f'VIOLATION property={prop} replay={rp} no-failing-input-found')
         sys.exit(1)
     probs = res.get('problems') or []
+    if res3 is None:
+        probs.append({'history': 'merge harness with indexes', 'step': 0, 'what': 'the merge harness with an indexed schema did not run: ' + (p3.stdout + p3.stderr)[-600:]})
+    else:
+        for v in res3.get('violating') or []:
+            for q in v['problems']:
+                if q.startswith('C07'):
+                    probs.append({'history': v['history'], 'step': -1, 'what': q})
     if p2.returncode != 0:
         probs.append({'history': 'replica a: create(name a, age 1, email x@x); delete; deliver the head to replica b (same indexed schema)', 'step': 2,
                       'what': 'merge of create+delete of an unseen document into an indexed collection: ' + ' '.join(l.strip() for l in p2.stdout.splitlines() if 'C07' in l)[:600]})
@@ -362,6 +377,19 @@ if prop == 'C08':
     summary['cases'] = summary.get('cases', 0) + res['cases']
     summary['distinct_nontrivial'] = summary['cases']
     summary['violating_histories'] = summary.get('violating_histories', 0) + len(fl)
+    # ordering / limit / aggregate laws (the listing is the reference)
+    p, res2 = gotest('^TestGovcC08AggregateLaws$', {}, 900)
+    if res2 is None:
+        rp = f'{V}/replays/{prop}/bounded-harness.json'
+        os.makedirs(os.path.dirname(rp), exist_ok=True)
+        json.dump({'property': prop, 'obligation': 'bounded harness', 'reason': 'the aggregate law harness no longer builds or runs against the current tree', 'output': (p.stdout + p.stderr)[-4000:]}, open(rp, 'w'), indent=1)
+        print(f'VIOLATION property={prop} replay={rp} no-failing-input-found')
+        sys.exit(1)
+    fl += res2.get('problems') or []
+    summary['bound'] += '; listing laws: order + limit + offset = slice of the ordered listing, _count = number of listed rows, _sum/_min/_max/_avg = arithmetic over the listed non-null values (the average under limit/offset only when no value is null), groups partition the listing and _count/_sum of a group are over its members; 5 filters x 4 orders x 7 limit/offset pairs, plain and indexed (%d evaluations)' % res2['cases']
+    summary['cases'] += res2['cases']
+    summary['distinct_nontrivial'] = summary['cases']
+    summary['violating_histories'] = len(fl)
     if fl:
         rp = f'{V}/replays/{prop}/bounded-history-2.json'
         os.makedirs(os.path.dirname(rp), exist_ok=True)
